@@ -79,6 +79,21 @@ Definition pn53x_status_outcome (d : dir) (c : pn_cmd) (payload : list Z) : out 
 (* application level error frame (TFI 7F) instead of a response *)
 Definition pn53x_errframe_outcome (d : dir) : out := ORaise (pn53x_error_map d 127).
 
+(* ReadRegister: fewer values than requested registers is chipset_error(None) = 0xFF (repair c13-8);
+   the PN533 puts a status byte in front of the values *)
+Definition readreg_result (with_status : bool) (nregs : Z) (payload : list Z) : chip :=
+  if with_status then
+    match payload with
+    | [] => CErr 255
+    | st :: vals => if st =? 0 then (if Z.of_nat (length vals) <? nregs then CErr 255 else CGood) else CErr st
+    end
+  else if Z.of_nat (length payload) <? nregs then CErr 255 else CGood.
+Definition pn53x_readreg_outcome (d : dir) (with_status : bool) (nregs : Z) (payload : list Z) : out :=
+  match readreg_result with_status nregs payload with
+  | CGood => OData
+  | CErr n => ORaise (pn53x_error_map d n)
+  end.
+
 (* ------------------------------------------------------------------ RC-S380 *)
 Definition le32 (b0 b1 b2 b3 : Z) : Z := b0 + 256 * b1 + 65536 * b2 + 16777216 * b3.
 
@@ -102,6 +117,21 @@ Definition rcs380_status_outcome (d : dir) (w : Z) : out :=
 Definition rcs380_bytes_outcome (d : dir) (b0 b1 b2 b3 : Z) : out :=
   if (b0 =? 0) && (b1 =? 0) && (b2 =? 0) && (b3 =? 0) then OData
   else ORaise (rcs380_comm_map d (le32 b0 b1 b2 b3)).
+
+(* InCommRF (initiator) / TgCommRF (target) answered with `payload` after the response code: the status
+   word sits at offset 0 / 3; a payload too short to hold it is a PROTOCOL_ERROR (repair c13-9);
+   no payload at all makes the driver return None *)
+Definition PROTOCOL_ERROR := 1.
+Definition rcs380_payload_outcome (d : dir) (payload : list Z) : out :=
+  let off := match d with Initiator => 0%nat | Target => 3%nat end in
+  match payload with
+  | [] => ONone
+  | _ => if Z.of_nat (length payload) <? Z.of_nat off + 4 then ORaise (rcs380_comm_map d PROTOCOL_ERROR)
+         else match skipn off payload with
+              | b0 :: b1 :: b2 :: b3 :: _ => rcs380_bytes_outcome d b0 b1 b2 b3
+              | _ => ORaise XStructError
+              end
+  end.
 
 (* InSetRF / InSetProtocol answered with status byte st (StatusError, translated by the repair) *)
 Definition rcs380_setup_outcome (st : Z) : out :=
